@@ -16,6 +16,7 @@ class ZoneAnalysis:
         self._inprog = set()
         self.sums = {}
         self.diffs = {}      # (function, symbol) -> (a, b): the symbol stands for a - b (checked_sub payloads, `a - b` kept opaque)
+        self.retexpr = {}    # (function, symbol) -> (callee, call, callee term): the symbol is an integer a local callee returned (see _retrel)
         self._consts = None
 
     def closure_creator(self, cpath):
@@ -138,7 +139,7 @@ class ZoneAnalysis:
             zf = self.zf_spec(path, cg)
             self.analyse_sites(zf)
             summ = {'retlen': self._retlen(zf), 'pre': [s for s in zf.sites if s.status == 'pre'], 'post': self._post_ok(zf), 'retlen_lb': self._retlen_lb(zf),
-                    'retelem': self._retelem(zf), 'post_true': self._post_true_params(zf), 'retval': self._retval(zf), 'post_none': self._post_none(zf), 'retslice': self._retslice(zf),
+                    'retelem': self._retelem(zf), 'post_true': self._post_true_params(zf), 'retval': self._retval(zf), 'post_none': self._post_none(zf), 'retslice': self._retslice(zf), 'retrel': self._retrel(zf), 'post_lin': self._post_lin(zf),
                     'unknown': [s for s in zf.sites if s.status == 'unknown']}
         finally:
             self._cg_ctx = prev
@@ -369,7 +370,7 @@ class ZoneAnalysis:
             if s.status == 'pre':
                 pre.append(s)
         summ = {'retlen': retlen, 'pre': pre, 'post': self._post_ok(zf), 'retlen_lb': self._retlen_lb(zf), 'retelem': self._retelem(zf),
-                'post_true': self._post_true_params(zf), 'retval': self._retval(zf), 'post_none': self._post_none(zf), 'retslice': self._retslice(zf)}
+                'post_true': self._post_true_params(zf), 'retval': self._retval(zf), 'post_none': self._post_none(zf), 'retslice': self._retslice(zf), 'retrel': self._retrel(zf), 'post_lin': self._post_lin(zf)}
         self._inprog.discard(path)
         self._summ[path] = summ
         return summ
@@ -397,7 +398,17 @@ class ZoneAnalysis:
             fs = set((t1, t2) for (t1, t2) in zf.facts_at(a) if self._param_term_ok(zf, t1) and self._param_term_ok(zf, t2)
                      and not (t1[0] is None and t2[0] is None))
             common = fs if common is None else (common & fs)
-        return sorted(common or [], key=str)
+        common = set(common or [])
+        # what the facts entail about an integer parameter through values that are not parameters: a constant upper bound
+        # (`let M = (a.len() + b.len() + U).checked_sub(1)?.checked_sub(L)?` bounds L although the sum is no parameter term)
+        for k in range(1, body.arg_count + 1):
+            if body.local_ty(k).lstrip('&').strip() not in ('usize', 'u64', 'u32') or k in zf.overrides:
+                continue
+            t = ('p%d' % k, 0)
+            ub = max(zf.upper_bound(t, a) for a in accept)
+            if ub < UMAX and ub < zf.sym_ub(t[0]):
+                common.add((t, (None, ub)))
+        return sorted(common, key=str)
 
     def _retslice(self, zf):
         """{component path of the return value: (parameter, field path, start, end)} for returned references to a sub-slice of a parameter's
@@ -717,6 +728,107 @@ class ZoneAnalysis:
                             if inner is not None and self._param_term_ok(czf, inner):
                                 return self.subst(zf, call, inner)
         return None
+
+    def _retrel(self, zf):
+        """Relational postcondition of a function that hands back integers inside Ok / Some (alone or as members of a tuple):
+        {member path: {'term': the member as a term of this body, 'facts': [(t1, t2)]}} where the facts (t1 <= t2) hold at the one place the
+        success value is built and mention only parameter symbols and `ret:<path>` (the members).  They are the difference bounds the facts
+        at that place entail between those symbols (e.g. `elem:list + 1 <= ret:0` after `if list.iter().any(|&j| j >= M) { return Err }`)."""
+        body = zf.body
+        if not body.local_ty(0).startswith(('std::result::Result<', 'std::option::Option<')):
+            return {}
+        oks = [(bi, st['rv']) for bi, st in body.stmts() if st['k'] == 'assign' and st['dst']['l'] == 0 and not st['dst'].get('p')
+               and st['rv']['k'] == 'agg' and st['rv'].get('variant') in ('Ok', 'Some')]
+        if len(oks) != 1 or not oks[0][1]['ops']:
+            return {}
+        bi, rv = oks[0]
+        comps = {}
+
+        def comp(path, o, depth=0):
+            if o['k'] == 'const':
+                return
+            if o['pl'].get('p'):
+                return
+            l = o['pl']['l']
+            ty = body.local_ty(l)
+            if ty.lstrip('&').strip() in ('usize', 'u64', 'u32'):
+                comps[path] = zf.term_op(o)
+                return
+            d = zf.single_def(l)
+            if d and d[0] == 'assign' and d[2]['rv']['k'] == 'agg' and d[2]['rv'].get('ak') == 'tuple' and depth < 2:
+                for i, o2 in enumerate(d[2]['rv']['ops']):
+                    comp(path + (str(i),), o2, depth + 1)
+        comp((), rv['ops'][0])
+        comps = {k: v for k, v in comps.items() if v is not None and not zf.unstable(v)}
+        if not comps:
+            return {}
+        facts = list(zf.facts_at(bi))
+        name = {}
+        for path, t in comps.items():
+            if t[0] is not None and not self._param_term_ok(zf, t):
+                name.setdefault(t[0], 'ret:' + '.'.join(path))
+        syms, cons, idx = dbm_build(facts, zf.sym_ub)
+        for sy in name:
+            idx(sy)
+        d = dbm_closure(syms, cons, zf.sym_ub)
+        if any(d[k][k] < 0 for k in range(len(syms))):
+            return {}
+        keep = [sy for sy in syms if sy is not None and (sy in name or self._param_term_ok(zf, (sy, 0)))]
+        out_facts = []
+        INF = float('inf')
+        for a in keep:
+            for b in keep + [None]:
+                if a == b or (a not in name and b not in name):
+                    continue
+                for x, y in ((a, b), (b, a)):
+                    c = d[syms[x]][syms[y]]
+                    if c == INF or abs(c) > 2 ** 40:
+                        continue
+                    # x - y <= c
+                    if x is None and c >= 0:
+                        continue      # 0 <= y + c: nothing
+                    if y is None and (c >= UMAX or x not in name):
+                        continue
+                    out_facts.append(((name.get(x, x), 0), (name.get(y, y), c)))
+        out = {}
+        for path, t in comps.items():
+            out[path] = {'term': t, 'sym': name.get(t[0]) if t[0] is not None else None, 'facts': sorted(set(out_facts), key=str), 'block': bi}
+        return out
+
+    def _post_lin(self, zf):
+        """[(parameter term, ({parameter symbol: coefficient}, constant))]: at every place the success value is built the integer parameter is at
+        most that sum of parameter terms (positive coefficients).  From difference bounds against a value that is a sum of parameter terms:
+        `(a.len() + b.len() + U).checked_sub(1)?.checked_sub(L)?` succeeded, so L <= len(a) + len(b) + U - 1."""
+        body = zf.body
+        if not body.local_ty(0).startswith(('std::result::Result', 'std::option::Option')):
+            return []
+        accept = [bi for bi, st in body.stmts() if st['k'] == 'assign' and st['dst']['l'] == 0 and not st['dst'].get('p') and st['rv']['k'] == 'agg'
+                  and st['rv'].get('variant') in ('Ok', 'Some')]
+        if len(accept) != 1:
+            return []
+        sums = [l for (pth, l) in self.sums if pth == body.path]
+        if not sums:
+            return []
+        facts = list(zf.facts_at(accept[0]))
+        syms, cons, idx = dbm_build(facts, zf.sym_ub)
+        for l in sums:
+            idx('v%d' % l)
+        d = dbm_closure(syms, cons, zf.sym_ub)
+        if any(d[k][k] < 0 for k in range(len(syms))):
+            return []
+        out = []
+        for k in range(1, body.arg_count + 1):
+            if body.local_ty(k).lstrip('&').strip() not in ('usize', 'u64', 'u32') or ('p%d' % k) not in syms:
+                continue
+            for l in sums:
+                c = d[syms['p%d' % k]][syms['v%d' % l]]
+                if c == float('inf') or abs(c) > 2 ** 40:
+                    continue
+                lf = linear_form(zf, ('v%d' % l, 0))
+                if lf is None or not lf[0] or any(v <= 0 or not self._param_term_ok(zf, (sy, 0)) for sy, v in lf[0].items()) or ('p%d' % k) in lf[0]:
+                    continue
+                out.append((('p%d' % k, 0), (dict(lf[0]), lf[1] + c)))
+        return out
 
     def _param_term_ok(self, zf, t):
         if t is None:
@@ -1349,8 +1461,12 @@ class ZoneAnalysis:
                 elif a is not None and bb is not None and a[0] is None:
                     s.need = [(bb, (None, UMAX - a[1]))]
                 elif a is not None and bb is not None:
-                    # both symbolic: each must leave room for the other's upper bound; try one-sided
+                    # both symbolic: a parameter term without a bound of its own must leave room for the other summand's upper bound
                     s.need = None
+                    if self._param_term_ok(zf, bb) and ua < UMAX and ub >= UMAX:
+                        s.need = [(bb, (None, UMAX - ua))]
+                    elif self._param_term_ok(zf, a) and ub < UMAX and ua >= UMAX:
+                        s.need = [(a, (None, UMAX - ub))]
             else:
                 if ua * ub <= UMAX:
                     s.status = 'safe:interval'
